@@ -56,6 +56,8 @@ LEG = {
  'zzChallengeRoundTrip': "The challenge the SDK's own middleware emits (`Bearer resource_metadata=%q, scope=%q`, either optional) read back by ParseWWWAuthenticate/splitChallenges/parseSingleChallenge (real code, symbolic strings): one bearer challenge whose parameters are exactly the configured strings, for every visible-ASCII value without quote/backslash of up to 4 (thorough 6) bytes — commas, equal signs and blanks included.",
  'zzC04Listen': "callSubscriptionsListen: issued exactly once and not awaited; nothing is cancelled while the caller's context lives; when it ends the peer gets one cancelled notice naming that call and the call is retired.",
  'zzC12HeaderName': "validateHeaderName against RFC 9110's token grammar stated independently, for every name of up to 2 (thorough 3) bytes.",
+ 'zzC02ErrorAnswer': "The answer to a call that ends in a JSON-RPC error, on that call's SSE exchange, for six error codes, three protocol eras, with or without a related notification sent first: it reaches the client readable — as the whole body with the mandated status only while nothing has been written to the response, as one more event afterwards (defect D14, fixed).",
+ 'zzC12Version': "servePOST also with the Mcp-Method mirror right, wrong or missing (refused with 400 before anything is handed on, from 2026-07-28 on), and with the initialize call of the legacy handshake: the session id travels on its answer and on no other.",
  'zzC14Decision': "The HTTP method (any of nine, symbolic) and ambient headers (CORS preflight markers, forwarding headers, cookies; optional map entries) are arbitrary and must not influence the decision; expirations up to ~35 000 years ahead (time.Duration saturation).",
 }
 ADD_ASSUME = {
